@@ -76,6 +76,8 @@ def rw_wrap(rng, spec, root, ref):
         if old_ns:
             return None
         wname = 'cfg/wrapper_zz.json'
+        while wname in spec['files']:
+            wname = wname.replace('.json', 'z.json')
         u = {'file': root['file'], 'as': ns}
         if root.get('part'):
             u['part'] = root['part']
